@@ -5,6 +5,7 @@ from .. import explore, universe, invariants, observe
 from ..runner import guard
 
 PROPERTY = "C02"
+HASHSEED_SLICE = True
 
 
 class S(explore.Spec):
@@ -62,6 +63,8 @@ def run(ctx):
   else:
     plan = [("c02.g1", 5), ("c02.g2", 5), ("c02.g1core", 7), ("c02.g2core", 7),
             ("c02.g1v3", 5)]
+  if ctx.slice:
+    plan = [(n, max(2, d - 2)) for n, d in plan[:2]]
   done = {}
   for name, d in plan:
     done[name] = explore.bfs(ctx, explore.SPECS[name], d)[0]
